@@ -23,7 +23,7 @@ import (
 
 var specC07 = report.Spec{Property: "C07", Check: "C07",
 	Rule: "determinism: arbitrary polygons (as C05), valid polygons with 0-3 holes (as C01) and, 1 case in 150 (thorough: 60), a valid star shaped polygon of 520-2600 (thorough: 6000) vertices several hundred pixels wide x grids x 1-4 ids given in random order x flags. Oracle (metamorphic): (a) three in-process repetitions (GOMAXPROCS as started, 1 and 8) return deeply equal maps, what a call returned does not change while another (shifted) polygon is snapped afterwards, and a digest of the output of up to 3000 multi-level/multi-ring cases per run is recomputed by a second process (Go randomises map iteration per range statement and per process) and must be equal; " +
-		"(b) valid polygons: for every non-empty subset of rings given in the opposite direction the output is deeply equal; (c) valid polygons: toggling ReverseWindingOrder yields the same tile matrices, polygons and rings in the same positions, each ring with >= 3 vertices being the reverse (as a cyclic sequence) of its counterpart, 1-2 vertex rings equal as sets. " +
+		"(b) valid polygons: for every non-empty subset of rings given in the opposite direction the output is deeply equal (rings without orientation - one or two vertices or exactly zero area - may come back in either direction); (c) valid polygons: toggling ReverseWindingOrder yields the same tile matrices, polygons and rings in the same positions, each ring with >= 3 vertices being the reverse (as a cyclic sequence) of its counterpart, 1-2 vertex rings equal as sets. " +
 		"Non-trivial: >= 2 ids, or >= 2 rings, or the result has more polygons/rings than the input (a split). Distinct by case content.",
 	Assumptions: []string{"the second process is the same test binary started by the check itself with the recorded cases"}}
 
@@ -84,6 +84,42 @@ var (
 	c07Cases  []json.RawMessage
 	c07Digest []uint64
 )
+
+// sameGeometry: deep equality, except that a ring without orientation (one or two vertices, or exactly zero area: the
+// statement only fixes the direction of rings with non-zero area) may be listed in either direction.
+func sameGeometry(a *analysis, x, y map[int][]geom.Polygon) bool {
+	if len(x) != len(y) {
+		return false
+	}
+	for id, px := range x {
+		py, ok := y[id]
+		if !ok || len(px) != len(py) {
+			return false
+		}
+		lev := kernel.Leveled{G: a.g, Level: a.g.LevelOf(id), Deepest: a.deepest}
+		for i := range px {
+			if len(px[i]) != len(py[i]) {
+				return false
+			}
+			for r := range px[i] {
+				rx, ry := px[i][r], py[i][r]
+				if reflect.DeepEqual(rx, ry) {
+					continue
+				}
+				if len(rx) != len(ry) {
+					return false
+				}
+				if len(rx) >= 3 && kernel.Area2Sign(outRing(lev, rx)) != 0 {
+					return false
+				}
+				if !reflect.DeepEqual(rx, kernel.Reversed(ry)) && !cyclicReverseEqual(rx, ry) {
+					return false
+				}
+			}
+		}
+	}
+	return true
+}
 
 func cyclicReverseEqual(a, b [][2]float64) bool {
 	n := len(a)
@@ -200,7 +236,7 @@ func oracleC07(c C07Case) (o report.Outcome) {
 			}
 		}
 		res := snapWith(c.SnapCase, poly, c.IDs, c.config())
-		if res.Panic != nil || !reflect.DeepEqual(first.Out, res.Out) {
+		if res.Panic != nil || !sameGeometry(a, first.Out, res.Out) {
 			o.Failf([]string{"ring-direction"}, "with rings %b given in the opposite direction the result differs: original %v, reversed input %v (panic %v)", mask, first.Out, res.Out, res.Panic)
 			return o
 		}
